@@ -96,6 +96,7 @@ type AssertSpec struct {
 // Guard states the lock discipline of a package-level map: every lookup must
 // satisfy Read and every update Write (expressions over ghost lock state).
 type Guard struct {
+	Field       string // fieldguard: "T.f" (a struct field instead of a package-level map)
 	Global      string
 	Pkg         string
 	Read, Write *CExpr
@@ -327,10 +328,15 @@ func (sp *Specs) loadSpecFile(path, pkg string) error {
 					return fail(l, "duplicate contract %s", key)
 				}
 				sp.Contracts[key] = cur
-			case "guard":
+			case "guard", "fieldguard":
 				// guard GLOBAL read EXPR write EXPR [property Cxx ...]
+				// fieldguard T.f read EXPR write EXPR [property Cxx ...]: every direct load / store of field f of a
+				// T (`object` is the struct pointer); taking the field's address for a call is not an access
 				name, r2 := splitWord(rest)
 				g := &Guard{Global: name, Pkg: pkg, File: l.pos}
+				if word == "fieldguard" {
+					g.Field, g.Global = name, ""
+				}
 				ri := strings.Index(r2, "read ")
 				wi := strings.Index(r2, " write ")
 				pi := strings.Index(r2, " property ")
